@@ -28,7 +28,7 @@ RULE = (
 )
 ASSUMPTIONS = ["positional-only markers are not in the statement's list of parameter kinds and are not generated",
                "parameter defaults are not compared (the statement speaks of names and kinds)"]
-REQUIRED = ["input:schema", "input:config", "input:configtype", "has:configtype-field", "has:virtual", "has:method",
+REQUIRED = ["input:schema", "input:config", "input:configtype", "input:nested-schema", "input:nested-config", "has:configtype-field", "has:virtual", "has:method",
             "param:varargs", "param:kwonly", "param:varkw", "ann:generic", "ann:string", "ret:annotated"]
 LEVEL_TEXT = (
     "Generated schemas and method signatures; the stub is parsed with ast and compared structurally with the "
@@ -299,6 +299,40 @@ def run_case(case, R):
             got = _ast_kinds(fn)
             R.check(got[:1] == [("self", "pos")] and got[1:] == want, "methods", "signature",
                     lambda: "stub %s%r, function (minus first parameter) %r\nsource: %s" % (key, got, want, _source(key, case["methods"][mkeys.index(key)])))
+        # a stub asked for a NESTED schema (or the sub-configuration built from it) describes that schema, not its owner
+        for c in spec["children"]:
+            if c["kind"] != "schema":
+                continue
+            want_attrs, want_ctor = [], []
+            for g in c["children"]:
+                if g["kind"] == "method":
+                    continue
+                want_attrs.append(g["key"])
+                if g["kind"] != "virtual":
+                    want_ctor.append(g["key"])
+                if g["kind"] == "appmode" and g.get("opts", {}).get("create_helpers", True):
+                    for mode in g.get("opts", {}).get("modes") or ["development", "production"]:
+                        want_attrs.append("is_%s_mode" % mode)
+            for form, nested in (("nested-schema", schema._fields[c["key"]]), ("nested-config", cfg[c["key"]])):
+                R.label("input:" + form)
+                try:
+                    with contextlib.redirect_stdout(io.StringIO()):
+                        nstub = cc.generate_stub(nested, class_name="NestedPart")
+                    ncls = [n for n in ast.parse(nstub).body if isinstance(n, ast.ClassDef)]
+                except Exception as exc:
+                    R.fail("raises", form, "generate_stub(%s %s) raised %r" % (form, c["key"], exc))
+                    continue
+                if not R.check(len(ncls) == 1 and ncls[0].name == "NestedPart", "parses", "one-class:" + form, lambda: "classes %r" % [n.name for n in ncls]):
+                    continue
+                nattrs = [n.target.id for n in ncls[0].body if isinstance(n, ast.AnnAssign) and isinstance(n.target, ast.Name)]
+                R.check(sorted(nattrs) == sorted(set(want_attrs)), "attrs", "set:" + form,
+                        lambda: "stub of the %s %r declares %r, its fields are %r" % (form, c["key"], sorted(nattrs), sorted(want_attrs)))
+                ninit = {n.name: n for n in ncls[0].body if isinstance(n, ast.FunctionDef)}.get("__init__")
+                if ninit is not None:
+                    nparams = _ast_kinds(ninit)
+                    R.check(sorted(n for n, k in nparams[1:]) == sorted(want_ctor), "ctor", "params:" + form,
+                            lambda: "stub of the %s %r: __init__ parameters %r, its persistent fields %r" % (form, c["key"], nparams, want_ctor))
+            break
         # bound method still works and the stub generation did not disturb it
         for key in mkeys:
             R.check(callable(getattr(cfg, key, None)), "pure", "bound-method", "method %s no longer callable" % key)
